@@ -82,7 +82,7 @@ Mat<T> phi1(const Mat<T> & A)
   return expm(B).topRightCorner(n, n);
 }
 
-inline MatL inverse(const MatL & A) { return Eigen::FullPivLU<MatL>(A).inverse(); }
+inline MatL inverse(const MatL & A) { return Eigen::PartialPivLU<MatL>(A).inverse(); }
 
 template<class D>
 MatL toL(const Eigen::MatrixBase<D> & m)
